@@ -1,4 +1,5 @@
 import Driver.LruDrv
+import Driver.BlobDrv
 /-!
 Line-protocol driver over the executable models (DESIGN.md Appendix B).
 One operation per input line, one result line per operation.  Core Lean only, so that it links
@@ -18,6 +19,10 @@ def dispatch (s : DState) (line : String) : DState × String :=
     else if t.startsWith "lru." then
       match lruStep s.lru toks with
       | some (l, out) => ({ s with lru := l }, out)
+      | none => (s, "bad-op")
+    else if t.startsWith "blob." then
+      match blobStep toks with
+      | some out => (s, out)
       | none => (s, "bad-op")
     else (s, "bad-op")
 
